@@ -193,3 +193,111 @@ def ref_ept_map_result(entry_handle, towers, status, max_towers=4):
     pad = -pos % 4
     out += [b"\x00" * pad, le(status, 4)]
     return cat(*out)
+
+
+# ------------------------------------------------------------------------------------------------ MS-GKDI 2.2
+
+
+def u16z(s: str) -> bytes:
+    """null-terminated UTF-16-LE"""
+    return (s + "\0").encode("utf-16-le")
+
+
+def ref_kdf_parameters(hash_name: str):
+    name = u16z(hash_name)
+    return cat(bytes.fromhex("0000000001000000"), le(len(name), 4), bytes(4), name)
+
+
+def ref_ffcdh_parameters(key_length, p, g):
+    return cat(le(12 + 2 * key_length, 4), b"DHPM", le(key_length, 4), p.to_bytes(key_length, "big"), g.to_bytes(key_length, "big"))
+
+
+def ref_ffcdh_key(key_length, p, g, y):
+    return cat(b"DHPB", le(key_length, 4), p.to_bytes(key_length, "big"), g.to_bytes(key_length, "big"), y.to_bytes(key_length, "big"))
+
+
+def ref_ecdh_key(curve, key_length, x, y):
+    magic = {"P256": b"ECK1", "P384": b"ECK3", "P521": b"ECK5"}[curve]
+    return cat(magic, le(key_length, 4), x.to_bytes(key_length, "big"), y.to_bytes(key_length, "big"))
+
+
+def ref_group_key_envelope(version, flags, l0, l1, l2, rkid_le, kdf_alg, kdf_par, sec_alg, sec_par, priv_len, pub_len, domain, forest, l1_key, l2_key):
+    ka, sa, dn, fn = u16z(kdf_alg), u16z(sec_alg), u16z(domain), u16z(forest)
+    return cat(le(version, 4), b"KDSK", le(flags, 4), le(l0, 4), le(l1, 4), le(l2, 4), rkid_le, le(len(ka), 4), le(len(kdf_par), 4), le(len(sa), 4), le(len(sec_par), 4),
+               le(priv_len, 4), le(pub_len, 4), le(len(l1_key), 4), le(len(l2_key), 4), le(len(dn), 4), le(len(fn), 4), ka, kdf_par, sa, sec_par, dn, fn, l1_key, l2_key)
+
+
+def ref_key_identifier(version, flags, l0, l1, l2, rkid_le, key_info, domain, forest):
+    dn, fn = u16z(domain), u16z(forest)
+    return cat(le(version, 4), b"KDSK", le(flags, 4), le(l0, 4), le(l1, 4), le(l2, 4), rkid_le, le(len(key_info), 4), le(len(dn), 4), le(len(fn), 4), key_info, dn, fn)
+
+
+def ref_getkey_request(target_sd, rkid_le, l0, l1, l2, referent=0x00020000):
+    """NDR64 stub of GetKey (MS-GKDI 3.1.4.1): ULONG cbTargetSD; [size_is] char* (ref pointer: conformant array inline: 8-byte max count, data);
+    [unique] GUID* (8-byte referent or 0, then the GUID); three LONGs."""
+    n = len(target_sd)
+    out = [le(n, 4), bytes(4), le(n, 8), target_sd, bytes(-n % 8)]
+    if rkid_le is None:
+        out.append(bytes(8))
+    else:
+        out += [le(referent, 8), rkid_le]
+    out += [le(l0, 4, True), le(l1, 4, True), le(l2, 4, True)]
+    return cat(*out)
+
+
+def ref_getkey_response(envelope, hresult=0, referent=0x00020000):
+    """[out] unsigned long* pcbOut; [out][size_is(,*pcbOut)] byte** ppbOut; HRESULT"""
+    n = len(envelope)
+    return cat(le(n, 4), bytes(4), le(referent, 8), le(n, 8), envelope, bytes(-n % 4), le(hresult, 4))
+
+
+# ------------------------------------------------------------------------------------------------ RFC 5652 / DPAPI-NG blob template
+
+
+def der_oid(dotted: str):
+    content = der_oid_content([int(x) for x in dotted.split(".")])
+    return cat(bytes([6]), der_len(len(content)), content)
+
+
+def der_seq(*parts):
+    body = cat(*parts)
+    return cat(bytes([0x30]), der_len(len(body)), body)
+
+
+def der_set(*parts):
+    body = cat(*parts)
+    return cat(bytes([0x31]), der_len(len(body)), body)
+
+
+def der_octets(b):
+    return cat(bytes([0x04]), der_len(len(b)), b)
+
+
+def der_utf8(s: str):
+    b = s.encode("utf-8")
+    return cat(bytes([0x0C]), der_len(len(b)), b)
+
+
+def der_ctx(n, constructed, body):
+    return cat(bytes([0x80 | (0x20 if constructed else 0) | n]), der_len(len(body)), body)
+
+
+def ref_gcm_parameters(nonce):
+    """RFC 5084 GCMParameters ::= SEQUENCE { aes-nonce OCTET STRING, aes-ICVlen INTEGER DEFAULT 12 } with ICVlen 16 as Windows emits"""
+    return der_seq(der_octets(nonce), bytes([0x02, 0x01, 0x10]))
+
+
+def ref_protection_descriptor(sid: str):
+    return der_seq(der_oid("1.3.6.1.4.1.311.74.1.1"), der_seq(der_seq(der_seq(der_utf8("SID"), der_utf8(sid)))))
+
+
+def ref_dpapi_ng_blob(key_identifier, sid, enc_cek, enc_content, content_params, in_envelope=True, cek_alg="2.16.840.1.101.3.4.1.45", content_alg="2.16.840.1.101.3.4.1.46"):
+    """the layout NCryptProtectSecret produces (calibrated against the 16 Windows blobs in tests/data)"""
+    kekid = der_seq(der_octets(key_identifier), der_seq(der_oid("1.3.6.1.4.1.311.74.1"), ref_protection_descriptor(sid)))
+    kekri = der_ctx(2, True, cat(bytes([2, 1, 4]), kekid, der_seq(der_oid(cek_alg)), der_octets(enc_cek)))
+    eci_parts = [der_oid("1.2.840.113549.1.7.1"), der_seq(der_oid(content_alg), content_params if content_params is not None else b"")]
+    if in_envelope and len(enc_content):
+        eci_parts.append(der_ctx(0, False, enc_content))
+    enveloped = der_seq(bytes([2, 1, 2]), der_set(kekri), der_seq(*eci_parts))
+    ci = der_seq(der_oid("1.2.840.113549.1.7.3"), der_ctx(0, True, enveloped))
+    return cat(ci, b"" if in_envelope else enc_content)
